@@ -242,6 +242,35 @@ def run_driver_parallel(binpath, plans, tag, k=4, **kw):
     return traces, deaths
 
 
+def run_apalache(module, args, timeout=900, tag="apa", patch=None):
+    """apalache-mc check <args> spec/<module>.tla in a scratch copy; returns (ok: no error found, output).
+    patch: optional callable(text) -> text applied to the module copy (negative controls)."""
+    wd = os.path.join(OUT, "apalache", "%s-%s-%d" % (tag, module, os.getpid()))
+    shutil.rmtree(wd, ignore_errors=True)
+    os.makedirs(wd)
+    src = open(os.path.join(SPEC, module + ".tla")).read()
+    if patch:
+        src = patch(src)
+    with open(os.path.join(wd, module + ".tla"), "w") as f:
+        f.write(src)
+    t0 = time.time()
+    try:
+        p = subprocess.run(["apalache-mc", "check"] + list(args) + [module + ".tla"], cwd=wd, capture_output=True, text=True, timeout=timeout)
+    except subprocess.TimeoutExpired:
+        shutil.rmtree(wd, ignore_errors=True)
+        raise Inconclusive("apalache %s %s timed out" % (module, args))
+    out = p.stdout + p.stderr
+    shutil.rmtree(wd, ignore_errors=True)
+    if "The outcome is: NoError" in out:
+        res = True
+    elif "The outcome is: Error" in out:
+        res = False
+    else:
+        raise Inconclusive("apalache %s %s did not run:\n%s" % (module, args, out[-2000:]))
+    log("[apalache] %s %s: %s, %.1fs" % (module, " ".join(args), "no error" if res else "error found", time.time() - t0))
+    return res, out
+
+
 # --------------------------------------------------------------------------- trace validation
 def validate(module, cfg, traces, tag, env=None, timeout=900, workers=1, diagnose_max=8):
     """Validate recorded traces against spec/<module>.tla (a trace acceptor printing "ACC <plan>").
